@@ -3,6 +3,7 @@
 package eng
 
 import (
+	"context"
 	"crypto/sha1"
 	"encoding/json"
 	"fmt"
@@ -401,7 +402,11 @@ func CheckMain(id, tier string, workers int) int {
 			out := filepath.Join(tmp, fmt.Sprintf("w%d.json", i))
 			errf := filepath.Join(tmp, fmt.Sprintf("w%d.err", i))
 			ef, _ := os.Create(errf)
-			cmd := exec.Command(self, "worker", id, "--tier", tier, "--shard", strconv.Itoa(i), "--nshards", strconv.Itoa(workers), "--out", out)
+			// hard stop: a worker that overruns its internal deadline by two minutes is killed and counted as a cap
+			// (exhaustive:false), never as a violation - slowness is not evidence against the property
+			ctx, cancel := context.WithTimeout(context.Background(), deadlineFor(tier)+2*time.Minute)
+			defer cancel()
+			cmd := exec.CommandContext(ctx, self, "worker", id, "--tier", tier, "--shard", strconv.Itoa(i), "--nshards", strconv.Itoa(workers), "--out", out)
 			cmd.Env = append(os.Environ(), "GOMAXPROCS="+gomaxprocs(chk), "VERIF_SEED="+strconv.FormatInt(seed, 10))
 			cmd.Stdout = ef
 			cmd.Stderr = ef
@@ -411,6 +416,10 @@ func CheckMain(id, tier string, workers int) int {
 			defer mu.Unlock()
 			b, rerr := os.ReadFile(out)
 			var r Result
+			if ctx.Err() == context.DeadlineExceeded {
+				merged.Caps = append(merged.Caps, fmt.Sprintf("worker %d/%d killed %v after its internal deadline (no result from this shard)", i, workers, 2*time.Minute))
+				return
+			}
 			if runErr != nil || rerr != nil || json.Unmarshal(b, &r) != nil {
 				crashes++
 				eb, _ := os.ReadFile(errf)
